@@ -121,6 +121,11 @@ func Walk(ctx context.Context, fileSystem fs.FS, prefix, delimiter, marker strin
 				if delimiter == "" {
 					// a directory object is listed (and marked) as "path/"
 					dirpath := path + "/"
+					// like any other key it has to match the prefix: the
+					// walk also visits the directories leading to it
+					if prefix != "" && !strings.HasPrefix(dirpath, prefix) {
+						return skipflag
+					}
 					if !pastMarker {
 						if dirpath == marker {
 							pastMarker = true
